@@ -785,3 +785,5 @@ def _run(world: World, plan):
         world.probe('loop_exception_handler:' + str(rec.get('exc_type')))
     sig.sort(key=repr)
     return common.finish(world, nontrivial, [sig, bool(loss)])
+
+INFO['rule'] += ' Round-5 additions: scripted peer connections open and close while users are tracked (peer_conns).'
